@@ -29,8 +29,10 @@ MANIFEST = {
                   "Whole init in the C01 box model (a frozen copy, coq/c19/C19BoxCodec.v + C19BoxModel.v = C01Codec/C01Model at /verif commit "
                   "c35b7dd, so that concurrent extensions of C01 cannot turn C19 red) (tree_of: every box the constructors build, with C01's leaf/container constructors; its "
                   "encoding is compared byte for byte with the real InitSegment.Encode): C19_roundtrip is now PROVED there for every "
-                  "op sequence and every SPS parser: if the final state's values fit their fields (args_okb) and the sizes fit 32 bits "
-                  "(enc_fits), C01's decoder applied to C01's encoding returns a tree EQUAL to the one encoded, the decoded file passes "
+                  "op sequence and every SPS parser: if the final state's values fit their fields (args_okb; by C19_args_ok / "
+                  "C19_roundtrip_inputs this follows from hypotheses on the call arguments: 32-bit timescales, language tags of 3 bytes or "
+                  ">= 2 non-NUL bytes, parameter-set lists fitting the records, parsers answering in the ranges of their Go types) and the "
+                  "sizes fit 32 bits (enc_fits), C01's decoder applied to C01's encoding returns a tree EQUAL to the one encoded, the decoded file passes "
                   "File.AddChild's fragmented-init test as soon as there is a track and GetTrex finds a trex for every track id; "
                   "C19_print_then_parse is the general converse of C01_tree for constructed trees (any tree of well-formed parts decodes "
                   "from its encoding to itself), with print-then-parse lemmas for all in-range values of every leaf kind of an init "
